@@ -1617,3 +1617,38 @@ def c02_sites(repo_root, tier):
         ok = fn is not None and not any(isinstance(x, ast.Assert) for x in ast.walk(fn))
         _ob(obs, f"liquid2.context:{name}/site.no-assert-on-data", ok, "variable lookup has no assert statement that template input could fail")
     return {"obligations": obs, "samples": [], "trusted": [], "functions": [], "assumptions": []}
+
+
+# --------------------------------------------------------------------------- C06 (every per-item rendering loop is accounted)
+@register("C06")
+def c06_sites(repo_root, tier):
+    """A loop limit bounds *nests* of loops only if every construct that renders a block or partial once per item makes its
+    length visible to the loops nested in it: the loop must sit inside `with <ctx>.loop(..)` or `with <ctx>.loop_iterations(..)`."""
+    from .sites_c11 import node_classes
+    repo = Repo(repo_root)
+    obs = []
+    n_loops = 0
+    RENDER = {"render", "render_async", "render_with_context", "render_with_context_async"}
+    for m, c in node_classes(repo, "Node"):
+        for fn in [st for st in c.body if isinstance(st, (ast.FunctionDef, ast.AsyncFunctionDef)) and st.name in ("render_to_output", "render_to_output_async")]:
+            for li, loop in enumerate(sorted([n for n in ast.walk(fn) if isinstance(n, (ast.For, ast.AsyncFor, ast.While))], key=lambda n: n.lineno)):
+                renders = [x for st in loop.body for x in ast.walk(st) if isinstance(x, ast.Call) and isinstance(x.func, ast.Attribute) and x.func.attr in RENDER]
+                if not renders:
+                    continue
+                it = ast.unparse(loop.iter) if not isinstance(loop, ast.While) else ""
+                # a fixed structural iteration over the node's own children (if/elsif alternatives, when clauses, block nodes) is not a data loop
+                if it.startswith("self.") :
+                    continue
+                n_loops += 1
+                ok = False
+                for w in ast.walk(fn):
+                    if isinstance(w, (ast.With, ast.AsyncWith)) and any(x is loop for st in w.body for x in ast.walk(st)):
+                        for item in w.items:
+                            ce = item.context_expr
+                            if isinstance(ce, ast.Call) and isinstance(ce.func, ast.Attribute) and ce.func.attr in ("loop", "loop_iterations"):
+                                ok = True
+                _ob(obs, f"{m.name}:{c.name}.{fn.name}/site.data-loop-accounted.{li}", ok,
+                    f"`for {ast.unparse(loop.target) if not isinstance(loop, ast.While) else '...'} in {it}` renders per item inside `with ctx.loop(..)`/`loop_iterations(..)`" if ok
+                    else f"`for .. in {it}` at line {loop.lineno} renders a block or partial per item but is not registered with the loop limit: loops nested in it are checked on their own")
+    _ob(obs, "liquid2/site.data-loops.count", n_loops >= 8, f"{n_loops} per-item rendering loops found in node render methods")
+    return {"obligations": obs, "samples": [], "trusted": [], "functions": [], "assumptions": ["macros called in a loop inherit the iteration carry through context.copy(carry_loop_iterations=True) (contract of copy)"]}
